@@ -154,6 +154,8 @@ class C16(PropBase):
             if "stack" in sw and rng.random() < 0.2:
                 step["depth"] = rng.randint(1, 30)
             kind = core.weighted(rng, [(4, "set"), (5, "getitem"), (3, "get"), (2, "in")])
+            if key["w"] == "fref" and rng.random() < 0.5:
+                step["same_obj"] = True  # look up with the very reference object an earlier fr_eval step evaluated in place, if any
             if kind == "set":
                 if mkey(**key) in [mkey(**k) for k in stored[c]]:
                     continue  # write-once: fresh keys only
@@ -180,6 +182,7 @@ class C16(PropBase):
         sess.models = {}
         sess.stored_objs = {}
         sess.store_log = {}
+        sess.evaluated_refs = {}
 
     def _ctx(self, sess, c):
         from typelib import ctx
@@ -208,11 +211,15 @@ class C16(PropBase):
             if out.ok:
                 sess.faults["fr_eval"] += 1
                 sess.fault_fired_before = True
+                sess.evaluated_refs[step["base"]] = obj
             return Outcome(True, "evaluated" if out.ok else "not-evaluable")
         if not op.startswith("ctx_"):
             return None
         c, m = self._ctx(sess, step["ctx"])
         kobj = self._key(sess, step["key"], step.get("mod", "vw0"))
+        if step.get("same_obj") and op != "ctx_set" and step["key"]["w"] == "fref" and step["key"]["base"] in sess.evaluated_refs:
+            kobj = sess.evaluated_refs[step["key"]["base"]]
+            sess.probes["lookup_with_an_evaluated_reference_object"] += 1
         if op == "ctx_set":
             def do():
                 c[kobj] = step["val"]
